@@ -26,7 +26,7 @@ import itertools, warnings, math
 from fractions import Fraction
 import numpy as np
 from common import flow
-from common.model import rflat
+from common.model import rflat, cflat
 from props import c19_setup as S
 
 LEVEL = "proof"
@@ -93,7 +93,7 @@ def chk_helpers(ctx, case):
             "fisher_total": "matrix_util.calc_fisher_matrix_total", "se": "matrix_util.calc_se",
             "mse_prob_dists": "matrix_util.calc_mse_prob_dists", "general_norm": "data_analysis.calc_mse_general_norm",
             "da_cov": "data_analysis.calc_covariance_matrix_of_prob_dists", "direct_sum_bad": "matrix_util.calc_direct_sum",
-            "mse_qops": "data_analysis.calc_mse_qoperations", "near": "matrix_util"}[kind]
+            "mse_qops": "data_analysis.calc_mse_qoperations", "near": "matrix_util", "se_c": "matrix_util.calc_se"}[kind]
 
     def bad(sig, what):
         ctx.violation("helpers", site, sig, what, case)
@@ -232,6 +232,33 @@ def chk_helpers(ctx, case):
         ctx.count("helpers", key=("se", repr(case["xs"]), repr(case["ys"])), label="se", nontrivial=len(xs) >= 2)
         if not flow.close(got, mod, 1e-12):
             bad("value", "calc_se=%s model %s" % (got, mod))
+    elif kind == "se_c":
+        # complex-valued and/or matrix-shaped arrays (density matrices, Choi matrices): squared error = sum of squared MODULI
+        def arr(v):
+            a = np.array([complex(float(fr(re_)), float(fr(im_))) for re_, im_ in v])
+            if case["real_dtype"]:
+                a = a.real.copy()
+            return a.reshape(case["shape"])
+        reps_x = [[arr(v) for v in xs] for xs in case["xs_list"]]; reps_y = [[arr(v) for v in ys] for ys in case["ys_list"]]
+        ln = int(np.prod(case["shape"]))
+        ses = []
+        for xs, ys in zip(reps_x, reps_y):
+            ses.append(m.call("c19.cse", [len(xs), ln], [x for a in xs for x in cflat(a)] + [x for a in ys for x in cflat(a)])[0])
+        ctx.count("helpers", key=("sec", repr(case["xs_list"]), repr(case["ys_list"]), repr(case["shape"])),
+                  label="se-%s-%s" % ("real" if case["real_dtype"] else "complex", "matrix" if len(case["shape"]) == 2 else "vector"), nontrivial=True)
+        with warnings.catch_warnings():
+            warnings.simplefilter("ignore")
+            got = [float(np.real(mu.calc_se(xs, ys))) for xs, ys in zip(reps_x, reps_y)]
+            mse, std = mu.calc_mse_prob_dists(reps_x, reps_y)
+        for g, e in zip(got, ses):
+            if not flow.close(g, float(e), 1e-12):
+                bad("value", "calc_se on %s %s arrays = %s, sum of squared moduli of the differences %s" % (
+                    "real" if case["real_dtype"] else "complex", "x".join(str(d) for d in case["shape"]), g, float(e)))
+                break
+        if len(ses) >= 2:
+            mean_m, var_m = fl(m.call("c19.mean_var", [], ses))
+            if not flow.close(float(np.real(mse)), mean_m, 1e-12) or not flow.close(float(np.real(std)) ** 2, var_m, 1e-10):
+                ctx.violation("helpers", "matrix_util.calc_mse_prob_dists", "value", "on complex / matrix arrays: (%s,%s), model mean %s variance %s" % (mse, std, mean_m, var_m), case)
     elif kind == "mse_prob_dists":
         xs_list = [[np.array([float(fr(x)) for x in v]) for v in xs] for xs in case["xs_list"]]
         ys_list = [[np.array([float(fr(x)) for x in v]) for v in ys] for ys in case["ys_list"]]
@@ -378,6 +405,12 @@ def gen_helpers(ctx):
     for _ in range(k):
         K = rng.randint(1, 4); ln = rng.randint(1, 4)
         cases.append({"kind": "se", "xs": [[rq(rng) for _ in range(ln)] for _ in range(K)], "ys": [[rq(rng) for _ in range(ln)] for _ in range(K)]})
+    for i in range(max(6, k // 2)):
+        shape = rng.choice([[2], [3], [2, 2], [3, 3], [2, 3]]); ln = shape[0] * (shape[1] if len(shape) == 2 else 1)
+        R = rng.randint(1, 4); K = rng.randint(1, 3)
+        cz = lambda: [[rq(rng, -6, 6, (1, 2, 4)), rq(rng, -6, 6, (1, 2, 4))] for _ in range(ln)]
+        cases.append({"kind": "se_c", "shape": shape, "real_dtype": i % 3 == 2,
+                      "xs_list": [[cz() for _ in range(K)] for _ in range(R)], "ys_list": [[cz() for _ in range(K)] for _ in range(R)]})
     for _ in range(max(4, k // 2)):
         R = rng.randint(2, 5); K = rng.randint(1, 3); ln = rng.randint(2, 3)
         cases.append({"kind": "mse_prob_dists",
@@ -1057,6 +1090,60 @@ SUBS = [("helpers", sub_helpers), ("expect", sub_expect), ("tomo", sub_tomo), ("
 FNS = {"helpers": chk_helpers, "expect": chk_expect, "tomo": chk_tomo, "object_err": chk_object_err, "mixed": chk_mixed, "history": chk_history}
 
 
+# ====================================================================== translator tie
+def regen_model(ctx):
+    """translator tie (protocol of flow.regen_check with this property's own translator gen/c19_py2coq.py): regenerate the Gallina
+    text of replace_prob_dist, calc_direct_sum, the loop / index skeletons of calc_covariance_mat_total (both), calc_mse_empi_dists_analytical,
+    calc_fisher_matrix_total (both), _calc_cramer_rao_bound and the two _generate_matS from the CURRENT source, compile it, and re-check
+    coq/gen/C19_Equiv.v (regenerated = hand-written model, all sizes / lists / inputs).  returns (ok, info)"""
+    import os, re, shutil, subprocess, sys
+    import runner
+    V = runner.V
+    scratch = os.path.join(getattr(ctx, "scratch", os.path.join(V, "build", ctx.prop_id)), "gen")
+    os.makedirs(scratch, exist_ok=True)
+    gen_v = os.path.join(scratch, "Gen_c19.v")
+    for stem in (gen_v[:-2], os.path.join(scratch, "C19_Equiv")):
+        for ext in (".vo", ".vos", ".vok", ".glob"):
+            try:
+                os.remove(stem + ext)
+            except OSError:
+                pass
+    equiv = os.path.join(V, "coq", "gen", "C19_Equiv.v")
+    src = open(equiv).read()
+    src_nc = re.sub(r"\(\*.*?\*\)", " ", src, flags=re.S)
+    thms = re.findall(r"^\s*Theorem\s+([\w']+)", src_nc, flags=re.M)
+    ctx.theorems = list(ctx.theorems) + [t for t in thms if t not in ctx.theorems]
+    ctx.obligations += len(thms)
+    r = subprocess.run([sys.executable, os.path.join(V, "gen", "c19_py2coq.py"), os.environ.get("VERIF_REPO", "/repo"), gen_v],
+                       capture_output=True, text=True, timeout=120)
+    if r.returncode != 0:
+        return False, {"theorem": "translator-rejected-source", "error": "translator rejected the source (outside its subset): " + (r.stdout + r.stderr)[-600:]}
+    q = ["-Q", os.path.join(V, "coq", "theories"), "QV", "-Q", scratch, "QVGen"]
+    r = subprocess.run(["timeout", "300", "coqc"] + q + [gen_v], capture_output=True, text=True)
+    if r.returncode != 0:
+        return False, {"theorem": thms[0], "error": "regenerated model does not compile: " + (r.stdout + r.stderr)[-600:]}
+    dst = os.path.join(scratch, "C19_Equiv.v")
+    shutil.copy(equiv, dst)
+    r = subprocess.run(["timeout", "600", "coqc"] + q + [dst], capture_output=True, text=True)
+    out = r.stdout + r.stderr
+    if r.returncode != 0:
+        m_ = re.search(r"line (\d+), characters", out)
+        thm = None
+        if m_:
+            upto = "\n".join(src.splitlines()[:int(m_.group(1))])
+            names = re.findall(r"^\s*(?:Theorem|Lemma)\s+([\w']+)", upto, flags=re.M)
+            thm = names[-1] if names else None
+        return False, {"theorem": thm, "error": out[-800:]}
+    blocks = runner.parse_assumptions(out)
+    bad = [a for closed, axs in blocks for a in axs if a not in runner.ALLOWED_AXIOMS and a.split(".")[-1] not in runner.ALLOWED_AXIOMS]
+    if len(blocks) != len(thms) or bad:
+        return False, {"theorem": thms[0], "error": "assumption gate on regenerated proofs: %d blocks / %d theorems, disallowed %s" % (len(blocks), len(thms), bad)}
+    for t, (closed, axs) in zip(thms, blocks):
+        ctx.axioms[t] = "closed" if closed else sorted(set(axs))
+    ctx.discharged += len(thms)
+    return True, {}
+
+
 def run(ctx):
     ctx.rule = ("helpers: seeded small rationals (impl gets float(r), model the same float exactly) incl. zeros / sub-threshold entries and a malformed stream; "
                 "expect: rational distributions with 2..4 outcomes, n <= 8 shots, complete enumeration of all outcome sequences in the model; "
@@ -1067,7 +1154,33 @@ def run(ctx):
                 "history: per setup a seeded truth A, neighbours A + delta*d (delta 1e-6, 1e-8; thorough also 1e-7, 1e-9; d seeded, inside the equality constraint), exact copies and a far truth, "
                 "evaluated on one re-used tomography object; a neighbour pair is non-trivial when the exact model difference exceeds 1e3 x rounding (1e-13 x scale); "
                 "non-trivial = outside the threshold bands (|p - eps| relative 1e-3) and, where a count applies, at least 2 schedules/blocks; distinct = distinct case record")
-    flow.standard_run(ctx, SUBS)
+    # flow.standard_run with this property's own translator tie (flow.regen_check is bound to gen/py2coq.py)
+    import runner
+    ok, info = runner.check_props(ctx)
+    ok2, info2 = regen_model(ctx)
+    tie_broken = not ok2
+    if not ok2:
+        ok, info = False, info2
+        ctx.note("regenerated model (coq/gen/C19_Equiv.v) not discharged: %s" % str(info2)[:400])
+        # the tie is broken: widen the differential sweep (towards the thorough-size generators) to find a concrete failing input
+        ctx.n = lambda quick, thorough: max(quick, (quick + thorough) // 2)
+    if not ok:
+        ctx.discharged = min(ctx.discharged, ctx.obligations - 1)
+    for name, fn in SUBS:
+        if ctx.only is None or name in ctx.only:
+            fn(ctx)
+    if not ok and not ctx.violations:
+        if tie_broken:
+            ctx.violation("theorems", "coq/gen/C19_Equiv.v", "translator-tie-broken:%s" % info.get("theorem"),
+                          "the model regenerated from the current source is no longer proved equal to the hand-written model (%s) and the widened "
+                          "differential sweep found no input on which the behaviour differs: %s" % (info.get("theorem"), info.get("error", "")[-400:]),
+                          {"theorem": info.get("theorem"), "error": info.get("error")}, no_input=True)
+        else:
+            ctx.violation("theorems", "Props/%s.v" % ctx.prop_id, "theorem-broken:%s" % info.get("theorem"),
+                          "theorem %s no longer checks: %s" % (info.get("theorem"), info.get("error", "")[-400:]),
+                          {"theorem": info.get("theorem"), "error": info.get("error")}, no_input=True)
+    elif not ok:
+        ctx.note("theorem obligations not discharged: %s" % info)
     ctx.assumptions = [
         "np.linalg.pinv / matrix_rank inside calc_left_inv and np.linalg.inv inside calc_cramer_rao_bound are oracles: the left inverse is taken from the implementation and its certificate L A = I is evaluated exactly in the model (max residual <= 1e-9); the inverse Fisher matrix is recomputed by the harness, its certificate F M = I evaluated exactly (residual bound scaled with cond F), ill-conditioned cases (cond > 1e10) are counted and skipped",
         "matA / vecB are read from the implementation (their correctness is property C08); the true object enters through to_var()/to_stacked_vector() (property C03)",
